@@ -245,6 +245,9 @@ func ChunkSizes(t *rapid.T, allowDegenerate bool) Sizes {
 func Tiling(t *rapid.T, total int, maxChunk int) []int {
 	var out []int
 	mode := rapid.IntRange(0, 2).Draw(t, "tilemode")
+	if mode == 2 && total > 6000 {
+		mode = 0 // thousands of tiny chunks make every case slow without adding shapes
+	}
 	for total > 0 {
 		var l int
 		switch mode {
